@@ -57,8 +57,8 @@ PROPS = {
     "C01": {
         "coq": "Properties/C01.v",
         "coq_extra": ["Properties/C16e.v", "Properties/C01src.v", "Properties/ExprVal.v"],
-        "pinchecks": ["PinChecks/PcEnforcer2Gen.v", "PinChecks/PcEnforceGen.v", "PinChecks/PcEnforcerGen.v", "PinChecks/PcLiterals.v", "PinChecks/PcModel2Gen.v", "PinChecks/PcEffector.v", "PinChecks/PcEffectorGen.v",
-                      "PinChecks/PcIniGen.v", "PinChecks/PcRegexGen.v", "Gen/RegexExamples.v", "PinChecks/PcRegexFmGen.v", "PinChecks/PcStrFnGen.v"] + ["PinChecks/PcStoreGen.v", "PinChecks/PcLinksGen.v", "PinChecks/PcRoleGraph.v", "PinChecks/PcRoleManagerGen.v", "PinChecks/PcRmCacheGen.v"],
+        "pinchecks": ["PinChecks/PcBody_fenforcer.v", "PinChecks/PcEnforcer2Gen.v", "PinChecks/PcEnforceGen.v", "PinChecks/PcEnforcerGen.v", "PinChecks/PcLiterals.v", "PinChecks/PcModel2Gen.v", "PinChecks/PcEffector.v", "PinChecks/PcEffectorGen.v",
+                      "PinChecks/PcIniGen.v", "PinChecks/PcBody_fconfig.v", "PinChecks/PcBody_fdefaultmodel.v", "PinChecks/PcRegexGen.v", "Gen/RegexExamples.v", "PinChecks/PcRegexFmGen.v", "PinChecks/PcStrFnGen.v"] + ["PinChecks/PcStoreGen.v", "PinChecks/PcLinksGen.v", "PinChecks/PcRoleGraph.v", "PinChecks/PcRoleManagerGen.v", "PinChecks/PcRmCacheGen.v"],
         "gen": "c01",
         "level_text": "Coq theorem c01_enforce_is_perm: for EVERY model store, matcher AST, function table, request (any arity/types), "
                       "effect rule and flag the enforcement loop of the model equals the PERM reference (per-rule outcomes in stored order, "
@@ -81,7 +81,7 @@ PROPS = {
     "C17": {
         "coq": "Properties/C17.v",
         "coq_extra": ["Properties/C17src.v"],
-        "pinchecks": ["PinChecks/PcEnforcer2Gen.v", "PinChecks/PcEnforceGen.v", "PinChecks/PcEnforcerGen.v", "PinChecks/PcLiterals.v"],
+        "pinchecks": ["PinChecks/PcBody_fenforcer.v", "PinChecks/PcEnforcer2Gen.v", "PinChecks/PcEnforceGen.v", "PinChecks/PcEnforcerGen.v", "PinChecks/PcLiterals.v"],
         "gen": "c17",
         "level_text": "Coq theorem c17_ctx_eq_plain: for every suffix, every model whose suffixed r/p/e/m definitions are renamed copies "
                       "(same rules under the suffixed policy type), every function state and every request, the context-qualified loop equals "
@@ -96,7 +96,7 @@ PROPS = {
 }
 
 
-ENGINE_PINS = ["Gen/RhaiExamples.v", "PinChecks/PcMiscGen.v", "PinChecks/PcEnforcer2Gen.v", "PinChecks/PcEnforceGen.v", "PinChecks/PcEnforcerGen.v", "PinChecks/PcModel2Gen.v", "PinChecks/PcStoreGen.v", "PinChecks/PcLinksGen.v", "PinChecks/PcInternalGen.v", "PinChecks/PcFsaveGen.v", "PinChecks/PcAdaptersGen.v", "PinChecks/PcBody_fmgmtapi.v", "PinChecks/PcApiGen.v", "PinChecks/PcQueryGen.v", "PinChecks/PcBody_frbacapi.v", "PinChecks/PcRoleGraph.v", "PinChecks/PcRoleManagerGen.v", "PinChecks/PcRmCacheGen.v", "PinChecks/PcLiterals.v"]
+ENGINE_PINS = ["Gen/RhaiExamples.v", "PinChecks/PcBody_fenforcer.v", "PinChecks/PcBody_fdefaultmodel.v", "PinChecks/PcBody_fassertion.v", "PinChecks/PcBody_finternalapi.v", "PinChecks/PcBody_ffileadapter.v", "PinChecks/PcBody_fstringadapter.v", "PinChecks/PcMiscGen.v", "PinChecks/PcEnforcer2Gen.v", "PinChecks/PcEnforceGen.v", "PinChecks/PcEnforcerGen.v", "PinChecks/PcModel2Gen.v", "PinChecks/PcStoreGen.v", "PinChecks/PcLinksGen.v", "PinChecks/PcInternalGen.v", "PinChecks/PcFsaveGen.v", "PinChecks/PcAdaptersGen.v", "PinChecks/PcBody_fmgmtapi.v", "PinChecks/PcApiGen.v", "PinChecks/PcQueryGen.v", "PinChecks/PcBody_frbacapi.v", "PinChecks/PcRoleGraph.v", "PinChecks/PcRoleManagerGen.v", "PinChecks/PcRmCacheGen.v", "PinChecks/PcLiterals.v"]
 ENGINE_NOTE = ("trusted: Coq kernel, extraction, harness; modelled not verified: hashlink LinkedHashSet/LinkedHashMap order (insert moves an existing entry "
                "to the back), petgraph adjacency order, rhai on the matcher fragment; adapters are modelled at the level of parsed lines (the CSV text level is "
                "C16/C09-text); every modelled function body is pinned by hash to the source it was aligned with")
@@ -105,7 +105,7 @@ PROPS.update({
     "C06": {
         "coq": "Properties/C06.v",
         "coq_extra": ["Properties/C06src.v"],
-        "pinchecks": ["PinChecks/PcEnforcer2Gen.v", "PinChecks/PcEnforceGen.v", "PinChecks/PcEnforcerGen.v", "PinChecks/PcFmapGen.v", "Gen/RegexSyntaxExamples.v", "PinChecks/PcStrFnGen.v", "PinChecks/PcLiterals.v", "PinChecks/PcEffector.v", "PinChecks/PcEffectorGen.v", "PinChecks/PcModel2Gen.v",
+        "pinchecks": ["PinChecks/PcCachedGen.v", "PinChecks/PcBody_fcachedenforcer.v", "PinChecks/PcBody_fenforcer.v", "PinChecks/PcEnforcer2Gen.v", "PinChecks/PcEnforceGen.v", "PinChecks/PcEnforcerGen.v", "PinChecks/PcFmapGen.v", "PinChecks/PcBody_ffunctionmap.v", "Gen/RegexSyntaxExamples.v", "PinChecks/PcStrFnGen.v", "PinChecks/PcLiterals.v", "PinChecks/PcEffector.v", "PinChecks/PcEffectorGen.v", "PinChecks/PcModel2Gen.v",
                       "PinChecks/PcRoleGraph.v", "PinChecks/PcRoleManagerGen.v", "PinChecks/PcRmCacheGen.v"] + ["PinChecks/PcBody_ferror.v"],
         "gen": "c06",
         "partial": "never-hang / never-panic of the regex crate and of rhai is NOT a theorem: it is watchdog + catch_unwind evidence from the differential run; "
@@ -123,7 +123,7 @@ PROPS.update({
     "C15": {
         "coq": "Properties/C15.v",
         "coq_extra": ["Properties/RegexFmGen.v", "Properties/FmapGen.v", "Properties/C15src.v"],
-        "pinchecks": ["PinChecks/PcFmapGen.v", "Gen/RegexSyntaxExamples.v", "PinChecks/PcStrFnGen.v", "PinChecks/PcLiterals.v"],
+        "pinchecks": ["PinChecks/PcFmapGen.v", "PinChecks/PcBody_ffunctionmap.v", "Gen/RegexSyntaxExamples.v", "PinChecks/PcStrFnGen.v", "PinChecks/PcLiterals.v"],
         "gen": "c15",
         "level_text": "Coq theorems: c15_key_match / c15_key_get* characterise keyMatch/keyGet for ALL byte strings; for every pattern of the documented grammar "
                       "(unbounded length) and EVERY key, the text-rewriting pipeline of keyMatch2/3/4/5, keyGet2/3 reads back as the compiled atom list "
@@ -172,7 +172,7 @@ PROPS.update({
     "C09": {
         "coq": "Properties/C09.v",
         "coq_extra": ["Properties/C09text.v", "Properties/C16q.v", "Properties/C09src.v"],
-        "pinchecks": ENGINE_PINS + ["PinChecks/PcIniGen.v", "PinChecks/PcRegexGen.v", "Gen/RegexExamples.v", "PinChecks/PcRegexFmGen.v", "PinChecks/PcStrFnGen.v"],
+        "pinchecks": ENGINE_PINS + ["PinChecks/PcIniGen.v", "PinChecks/PcBody_fconfig.v", "PinChecks/PcBody_fdefaultmodel.v", "PinChecks/PcRegexGen.v", "Gen/RegexExamples.v", "PinChecks/PcRegexFmGen.v", "PinChecks/PcStrFnGen.v"],
         "gen": "c09",
         "level_text": "Coq theorems: AdapterSync (MemoryAdapter lines = in-memory policy, rule for rule, same order) holds after construction and is preserved by "
                       "EVERY management call with auto-save on - accepted, duplicate, refused, failed, late role-link error, panic (c09_step, c09_history, "
@@ -329,7 +329,7 @@ PROPS.update({
     "C20": {
         "coq": "Properties/C20.v",
         "coq_extra": ["Properties/LocksGen.v"],
-        "pinchecks": ["PinChecks/PcLocks.v", "PinChecks/PcLocksGen.v", "PinChecks/PcFmapGen.v", "Gen/RegexSyntaxExamples.v", "PinChecks/PcStrFnGen.v", "PinChecks/PcRegexFmGen.v", "PinChecks/PcModel2Gen.v", "PinChecks/PcBody_frbacapi.v", "PinChecks/PcEnforcer2Gen.v", "PinChecks/PcEnforceGen.v", "PinChecks/PcEnforcerGen.v", "PinChecks/PcBody_fcachedenforcer.v", "PinChecks/PcCachedGen.v"] + ["PinChecks/PcCached.v", "PinChecks/PcRoleGraph.v", "PinChecks/PcRoleManagerGen.v", "PinChecks/PcRmCacheGen.v"],
+        "pinchecks": ["PinChecks/PcLocks.v", "PinChecks/PcLocksGen.v", "PinChecks/PcFmapGen.v", "PinChecks/PcBody_ffunctionmap.v", "Gen/RegexSyntaxExamples.v", "PinChecks/PcStrFnGen.v", "PinChecks/PcRegexFmGen.v", "PinChecks/PcModel2Gen.v", "PinChecks/PcBody_frbacapi.v", "PinChecks/PcEnforcer2Gen.v", "PinChecks/PcEnforceGen.v", "PinChecks/PcEnforcerGen.v", "PinChecks/PcBody_fcachedenforcer.v", "PinChecks/PcCachedGen.v"] + ["PinChecks/PcCached.v", "PinChecks/PcRoleGraph.v", "PinChecks/PcRoleManagerGen.v", "PinChecks/PcRmCacheGen.v"],
         "gen": "c20",
         "partial": "PARTIAL by nature: the theorems are about an abstract small-step semantics of two writer-preferring, non-re-entrant read-write locks and the "
                    "thread programs the code follows; that rustc / parking_lot / mini-moka / rhai implement those semantics (memory model, fairness, Send/Sync "
@@ -351,7 +351,7 @@ PROPS.update({
     "C16": {
         "coq": "Properties/C16.v",
         "coq_extra": ["Properties/C16q.v", "Properties/C09text.v", "Properties/C16e.v", "Properties/RegexGen.v", "Properties/IniGen.v", "Properties/C16src.v"],
-        "pinchecks": ["PinChecks/PcIniGen.v", "PinChecks/PcRegexGen.v", "Gen/RegexExamples.v", "PinChecks/PcRegexFmGen.v", "PinChecks/PcStrFnGen.v", "PinChecks/PcModel2Gen.v", "PinChecks/PcStoreGen.v", "PinChecks/PcLinksGen.v", "PinChecks/PcFsaveGen.v", "PinChecks/PcAdaptersGen.v", "PinChecks/PcLiterals.v"] + ["PinChecks/PcBody_ffrontend.v"],
+        "pinchecks": ["PinChecks/PcIniGen.v", "PinChecks/PcBody_fconfig.v", "PinChecks/PcBody_fdefaultmodel.v", "PinChecks/PcRegexGen.v", "Gen/RegexExamples.v", "PinChecks/PcRegexFmGen.v", "PinChecks/PcStrFnGen.v", "PinChecks/PcModel2Gen.v", "PinChecks/PcStoreGen.v", "PinChecks/PcLinksGen.v", "PinChecks/PcFsaveGen.v", "PinChecks/PcAdaptersGen.v", "PinChecks/PcLiterals.v"] + ["PinChecks/PcBody_ffrontend.v"],
         "gen": "c16",
         "level_text": "Coq theorems at BYTE level over Model/Csv.v and Model/Ini.v (validated against the real functions through the cfg(casbin_verif) hooks): "
                       "c16_parse_render_row (every csv-safe row under every spacing/quoting layout parses back, scanner fuel proved adequate), file level with "
